@@ -34,7 +34,8 @@ TStep ==
                  /\ failed' = IF "drop" \in DOMAIN r /\ r.drop     \* accepted vacuously (outside the modelled domain): counted
                               THEN failed \cup {[line |-> l, msg |-> "DROP"]} ELSE failed
             ELSE /\ failed' = failed \cup {[line |-> l, msg |-> r.msg]}
-                 /\ l' = NextReset(l + 1)
+                 /\ l' = IF "cont" \in DOMAIN r /\ r.cont THEN l + 1      \* self-contained events: go on
+                         ELSE NextReset(l + 1)                            \* stateful: skip the rest of this execution
                  /\ st' = StInit
                  /\ UNCHANGED done
 
